@@ -42,6 +42,11 @@ type hostSpec struct {
 	Threads int        `json:"threads"`
 	Calls   []hostCall `json:"calls"` // in the order the scheduler chose
 	Out     string     `json:"out"`
+	// Preempt: every simulated host thread is a goroutine of one synctest
+	// bubble; several of them are inside the exported function at the same
+	// time and the world's scheduler decides, at every preemption point, who
+	// continues (VERIF_WORLD carries the world configuration).
+	Preempt bool `json:"preempt,omitempty"`
 }
 
 type hostResult struct {
@@ -83,6 +88,10 @@ func runHost(specPath string) {
 	if spec.Threads < 1 {
 		spec.Threads = 1
 	}
+	if spec.Preempt {
+		runHostPreempt(&spec)
+		return
+	}
 	// Simulated host threads are real OS threads (goroutines locked to their
 	// thread); the baton decides who runs, one call at a time, so the
 	// interleaving is exactly the recorded one.
@@ -113,4 +122,41 @@ func runHost(specPath string) {
 		os.Exit(97)
 	}
 	os.Exit(0)
+}
+
+// runHostPreempt: the preemptive host world. Thread t makes its calls in the
+// order they appear in spec.Calls; nothing else orders the threads.
+func runHostPreempt(spec *hostSpec) {
+	results := make([]hostResult, len(spec.Calls))
+	dl := simrt.RunWorld(func() {
+		done := make(chan int, spec.Threads)
+		for t := 0; t < spec.Threads; t++ {
+			id := simrt.Spawn("host-thread")
+			go func(t int) {
+				simrt.Park(id, "host-thread")
+				for k, c := range spec.Calls {
+					if c.Thread%spec.Threads != t {
+						continue
+					}
+					simrt.Yield("host-call")
+					out, pan := callExport(c.Input)
+					results[k] = hostResult{Thread: t, Output: out, Panic: pan}
+				}
+				done <- t
+			}(t)
+		}
+		for t := 0; t < spec.Threads; t++ {
+			<-done
+		}
+	})
+	if dl != "" {
+		fmt.Fprintln(os.Stderr, "verif host:", dl)
+		simrt.Exit(98)
+	}
+	outData, _ := json.Marshal(results)
+	if err := os.WriteFile(spec.Out, outData, 0o644); err != nil {
+		fmt.Fprintln(os.Stderr, "verif host:", err)
+		os.Exit(97)
+	}
+	simrt.Exit(0)
 }
